@@ -478,7 +478,15 @@ func (r *NumberRenamer) assignNamesInScope(scope *js_ast.Scope, sourceIndex uint
 
 		// Rename all user-defined symbols in this scope
 		for _, innerIndex := range *sorted {
-			r.assignName(s, ast.Ref{SourceIndex: sourceIndex, InnerIndex: uint32(innerIndex)})
+			// Symbols that are linked to a symbol in another file (i.e. bound
+			// imports in the module scope of a wrapped CommonJS file) are top-level
+			// symbols of that other file. They either already have a name or they
+			// are dead code. Naming them here would race with the other files.
+			ref := ast.Ref{SourceIndex: sourceIndex, InnerIndex: uint32(innerIndex)}
+			if ast.FollowSymbols(r.symbols, ref).SourceIndex != sourceIndex {
+				continue
+			}
+			r.assignName(s, ref)
 		}
 	}
 
